@@ -81,7 +81,7 @@ class Gen:
     def op_lookup(self):
         k = self.present() if self.rng.random() < 0.6 and self.contents else self.anykey()
         self.emit(self.rng.choice(["get", "getkv", "contains"]) + f" {k}")
-    def op_misc(self):
+    def op_misc(self, force=None):
         r = self.rng
         if getattr(self, "many", False) and r.random() < 0.5:
             n = r.randrange(0, 5)
@@ -115,7 +115,9 @@ class Gen:
         c = r.choice(["getmut", "tryinsert", "entry_or_insert", "entry_insert", "entry_remove", "entry_and_modify",
                       "entry_drop", "retain", "extend", "drain", "extractif", "iter", "iterfold", "reserve",
                       "tryreserve", "shrinkto", "shrinktofit", "clear", "len", "capacity", "allocsize", "withcap",
-                      "dropmap", "iter", "iterfold", "retain", "extractif"])
+                      "dropmap", "iter", "iterfold", "retain", "extractif", "intoiter", "intokeys", "intovalues"])
+        if force:
+            c = force
         k = self.present() if r.random() < 0.5 and self.contents else self.anykey()
         if c == "getmut":
             v = self.val(); self.emit(f"getmut {k} {v}")
@@ -152,6 +154,13 @@ class Gen:
         elif c == "drain":
             n = r.choice([0, 1, 2, len(self.contents) // 2, len(self.contents), len(self.contents) + 3])
             self.emit(f"drain {n}"); self.contents = {}
+        elif c in ("intoiter", "intokeys", "intovalues"):
+            # owning iterators: often on an EMPTIED but still allocated map (clear / drain first)
+            if r.random() < 0.3:
+                self.emit(r.choice(["clear", "drain 1000", "retain 0"]))
+                self.contents = {}
+            n = r.choice([0, 1, 2, len(self.contents) // 2, len(self.contents), len(self.contents) + 3])
+            self.emit(f"{c} {n}"); self.contents = {}
         elif c == "extractif":
             sel = [x for x in range(self.nkeys) if r.random() < 0.4]
             nsel = len([x for x in sel if x in self.contents])
@@ -207,6 +216,31 @@ def make_script(rng, name, kind=None, plan=None, nkeys=None, length=None, clone_
                     continue
                 else:
                     g.emit(f"arm {a} {rng.choice([0, 0, 1, 2, 3, 5, 8, 13])}")
+                    if a == "clonepanic_nth" and clone_ops:
+                        # Clone only runs inside clone / clone_from: make it the armed operation
+                        c = rng.choice(["o_clone", "o_clone_from", "o_clone_from"])
+                        g.emit(c)
+                        g.resync = True
+                        steps += 1
+                        continue
+                # make the armed operation one that actually runs the armed callback
+                if rng.random() < 0.7:
+                    tgt = {"droppanic_nth": ["retain", "clear", "drain", "dropmap", "withcap", "ins_present", "rem_present", "extend", "intoiter"],
+                           "predpanic_nth": ["retain", "extractif"],
+                           "eqpanic_nth": ["ins_present", "rem_present", "get_present", "entry_insert", "entry_remove"],
+                           "hashpanic_nth": ["ins_absent", "ins_absent", "reserve", "entry_or_insert", "shrinktofit", "extend", "tryinsert"],
+                           "hashpanic_key": ["ins_absent", "reserve", "shrinktofit"]}.get(a)
+                    if tgt:
+                        c = rng.choice(tgt)
+                        if c == "ins_present" and g.contents: g.op_insert(g.present())
+                        elif c == "rem_present" and g.contents: g.op_remove(g.present())
+                        elif c == "get_present" and g.contents: g.emit(f"get {g.present()}")
+                        elif c == "ins_absent": g.op_insert(g.absent() if g.absent() is not None else g.anykey())
+                        elif c in ("ins_present", "rem_present", "get_present"): g.op_insert(g.anykey())
+                        else: g.op_misc(force=c)
+                        g.resync = True
+                        steps += 1
+                        continue
                 g.resync = True          # after a possible unwind the generator's view is stale
             if clone_ops and rng.random() < 0.12:
                 c = rng.choice(["o_clone", "o_clone_from", "o_swap", "o_eq", "o_eq", "o_clone_from", "o_clone"])
@@ -355,3 +389,40 @@ def make_run_script(rng, name, kind=None):
         probes()
     g.emit("iter")
     return f"=== {name} plan={plan} nkeys={n + 6}\n" + "\n".join(g.lines) + "\n"
+
+
+def make_sparse_script(rng, name, kind=None):
+    """Large, sparsely filled tables (whole groups EMPTY between occupied ones, first / last bucket
+    occupied or not) with every iterator flavour: next-only, fold after a prefix, clone, owning."""
+    kind = kind or rng.choice(["map-drop", "map-plain"])
+    plan = rng.choice(["seq", "seq", "mix", "wrap"])
+    cap = rng.choice([57, 100, 113, 200, 449])
+    nb = 1
+    while nb * 7 // 8 < cap:
+        nb *= 2
+    g = Gen(rng, nb, plan, kind)
+    g.resync = False; g.many = False; g.forget = False
+    g.header()
+    g.emit(f"withcap {cap}")
+    # a few clusters of consecutive positions
+    keys = set()
+    for _ in range(rng.choice([1, 2, 3, 5])):
+        base = rng.choice([0, 1, 15, 16, 17, 31, 32, 47, 48, 63, 64, nb // 2, nb - 17, nb - 16, nb - 2, nb - 1, rng.randrange(nb)])
+        for j in range(rng.choice([1, 1, 2, 3, 7])):
+            keys.add((base + j) % nb)
+    for k in sorted(keys, key=lambda _: rng.random()):
+        g.op_insert(k)
+    for _ in range(rng.choice([2, 4, 8])):
+        c = rng.choice(["iter", "iterfold", "iterfold", "iterfold", "remove", "insert", "len"])
+        if c == "iterfold":
+            g.emit(f"iterfold {rng.choice([0, 0, 1, 2, len(g.contents)])}")
+        elif c == "remove" and g.contents:
+            g.op_remove(g.present())
+        elif c == "insert":
+            g.op_insert(rng.randrange(nb))
+        else:
+            g.emit(c if c in ("iter", "len") else "iter")
+    n = len(g.contents)
+    g.emit(rng.choice([f"intoiter {rng.choice([0, 1, n, n + 3])}", f"intokeys {rng.choice([0, 1, n])}", f"intovalues {rng.choice([0, 2, n])}",
+                       f"drain {rng.choice([0, 1, n + 1])}", "iter"]))
+    return f"=== {name} plan={plan} nkeys={nb}\n" + "\n".join(g.lines) + "\n"
